@@ -5,6 +5,8 @@ HERE="$(cd "$(dirname "$0")/.." && pwd)"
 cd "$HERE" || exit 2
 sh ./setup.sh >/dev/null || exit 2
 status=0
+# the oracles first: the reference models must reproduce the literals of the repository's own unit tests
+/venv/bin/python tools/oracle_selfcheck.py | tail -1 || status=1
 for id in $(python3 -c "import json; print(' '.join(c['property_id'] for c in json.load(open('MANIFEST.json'))['checks']))"); do
     ./check "$id" --tier "$TIER" || { echo "FAILED $id"; status=1; }
 done
